@@ -5,6 +5,7 @@ package rest
 import (
 	"context"
 	"fmt"
+	"os"
 	"sort"
 	"strings"
 	"sync"
@@ -40,6 +41,11 @@ type c15Case struct {
 	CrashAfter bool                 `json:"crash_after,omitempty"`
 	Recovery   string               `json:"recovery,omitempty"`
 	Other      *c15Change           `json:"other,omitempty"` // race: second node's change
+	// race: second node runs this program instead of Other (ops ins | upd | del | load) and dies at operation
+	// OtherCrashAt (after applying it) of its connection when OtherCrash is set
+	OtherProg    []c15Change `json:"other_prog,omitempty"`
+	OtherCrash   bool        `json:"other_crash,omitempty"`
+	OtherCrashAt int         `json:"other_crash_at,omitempty"`
 	Sched      []vsched.PrefixEntry `json:"sched,omitempty"`
 	Bound      int                  `json:"bound,omitempty"`
 }
@@ -420,6 +426,22 @@ func (e *c15Env) runCrash(t *testing.T, r *vreport.Report, c c15Case, opsOut *in
 				allowed["dby"] = []*c15Cfg{cfg}
 			}
 		}
+	case "insert-claiming":
+		// another database claims the collections the interrupted update was releasing: either it is refused, or the
+		// interrupted update can no longer be rolled back onto them (observe checks single ownership)
+		othersHold := false
+		for other, cfg := range w.model {
+			if other != c.Last.DB && cfg != nil && before != nil && strings.ContainsAny(cfg.cols, before.cols) {
+				othersHold = true
+			}
+		}
+		if c.Last.Op == "upd" && c.Last.Cols != "" && before != nil && legal && !othersHold && !strings.ContainsAny(c.Last.Cols, before.cols) {
+			cfg, rerr := w.perform(n2, c15Change{Op: "ins", DB: "dby", Cols: before.cols})
+			if rerr == nil {
+				allowed["dby"] = []*c15Cfg{cfg}
+				allowed[c.Last.DB] = []*c15Cfg{intended}
+			}
+		}
 	case "update":
 		if before != nil && c.Last.Op != "del" {
 			cfg, rerr := w.perform(n2, c15Change{Op: "upd", DB: c.Last.DB})
@@ -463,9 +485,31 @@ func (e *c15Env) raceScenario(t *testing.T, r *vreport.Report, c c15Case) vsched
 	w := e.newWorld(t)
 	ok := w.applyPrefix(r, c.Prefix, c)
 	conns := []*vconn.Conn{vconn.Wrap(e.conn, "n1"), vconn.Wrap(e.conn, "n2")}
-	changes := []c15Change{c.Last, *c.Other}
-	errs := make([]error, 2)
-	cfgs := make([]*c15Cfg, 2)
+	progs := [][]c15Change{{c.Last}, nil}
+	if len(c.OtherProg) > 0 {
+		progs[1] = c.OtherProg
+	} else {
+		progs[1] = []c15Change{*c.Other}
+	}
+	if c.OtherCrash {
+		conns[1].CrashAt, conns[1].CrashAfter = c.OtherCrashAt, true
+	}
+	type c15Res struct {
+		ch   c15Change
+		th   int
+		err  error
+		cfg  *c15Cfg
+		done bool
+	}
+	var results []*c15Res
+	perThread := make([][]*c15Res, 2)
+	for i, pr := range progs {
+		for _, ch := range pr {
+			res := &c15Res{ch: ch, th: i}
+			results = append(results, res)
+			perThread[i] = append(perThread[i], res)
+		}
+	}
 	before := map[string]*c15Cfg{}
 	for k, v := range w.model {
 		before[k] = v
@@ -482,8 +526,14 @@ func (e *c15Env) raceScenario(t *testing.T, r *vreport.Report, c c15Case) vsched
 			mu.Lock()
 			w.counter += 10
 			mu.Unlock()
-			cfg, err := w.performRace(n, changes[i], 1000*(i+1))
-			cfgs[i], errs[i] = cfg, err
+			for j, res := range perThread[i] {
+				if conns[i].Dead() {
+					res.err = fmt.Errorf("node is dead")
+					continue
+				}
+				res.cfg, res.err = w.performRace(n, res.ch, 1000*(i+1)+j)
+				res.done = true
+			}
 		}
 	}
 	conns[0].Schedule, conns[1].Schedule = true, true
@@ -493,58 +543,98 @@ func (e *c15Env) raceScenario(t *testing.T, r *vreport.Report, c c15Case) vsched
 		}
 		conns[0].Schedule, conns[1].Schedule = false, false
 		viol := map[string]string{}
-		desc := fmt.Sprintf("race %s (err=%v) vs %s (err=%v) after %v", changes[0], errs[0], changes[1], errs[1], c.Prefix)
-		// acceptable final states: apply acknowledged changes in either order on the model
+		var parts []string
+		for _, res := range results {
+			parts = append(parts, fmt.Sprintf("n%d:%s(err=%v)", res.th+1, res.ch, res.err))
+		}
+		desc := fmt.Sprintf("race %s after %v; node 2 died=%v [%s]", strings.Join(parts, " "), c.Prefix, conns[1].Dead(), strings.Join(conns[1].Log, " "))
+		// acceptable final states: the previous configuration, plus what each change may have produced
 		allowed := map[string][]*c15Cfg{}
 		for k, v := range before {
 			allowed[k] = []*c15Cfg{v}
 		}
-		for i, ch := range changes {
+		touched := map[string]int{}
+		for _, res := range results {
+			if res.ch.Op != "load" && res.done {
+				touched[res.ch.DB]++
+			}
+		}
+		withCols := func(cfg *c15Cfg, prev *c15Cfg) *c15Cfg {
+			c2 := *cfg
+			if c2.cols == "" && prev != nil {
+				c2.cols = prev.cols
+			}
+			return &c2
+		}
+		for _, res := range results {
+			ch := res.ch
+			if ch.Op == "load" || !res.done {
+				continue
+			}
 			prev := before[ch.DB]
 			switch {
-			case ch.Op == "del" && (errs[i] == nil || prev != nil):
+			case ch.Op == "del" && (res.err == nil || prev != nil):
 				// acknowledged, or a legal delete that returned an error: another node may have rolled the
 				// in-progress delete forward before this node's final registry write lost its CAS race, so the
-				// outcome of an errored legal change is "previous or new", like an interrupted one
+				// outcome of an errored (or interrupted) legal change is "previous or new"
 				allowed[ch.DB] = append(allowed[ch.DB], nil)
-			case errs[i] != nil && cfgs[i] != nil && ((ch.Op == "upd" && prev != nil) || (ch.Op == "ins" && prev == nil)):
-				c2 := *cfgs[i]
-				if c2.cols == "" && prev != nil {
-					c2.cols = prev.cols
-				}
-				allowed[ch.DB] = append(allowed[ch.DB], &c2)
+			case res.err != nil && res.cfg != nil && (ch.Op == "upd" || ch.Op == "ins"):
+				// errored or interrupted: previous or new (whether it was legal depends on the interleaving)
+				allowed[ch.DB] = append(allowed[ch.DB], withCols(res.cfg, prev))
 				if ch.Op == "ins" {
 					allowed[ch.DB] = append(allowed[ch.DB], nil)
 				}
-			case errs[i] == nil:
-				c2 := *cfgs[i]
-				if c2.cols == "" && prev != nil {
-					c2.cols = prev.cols
-				}
-				allowed[ch.DB] = append(allowed[ch.DB], &c2)
+			case res.err == nil:
+				allowed[ch.DB] = append(allowed[ch.DB], withCols(res.cfg, prev))
 			}
 		}
-		// an acknowledged change is not lost to the concurrent one unless the other also acted on the same database
-		for i, ch := range changes {
-			other := changes[1-i]
-			if errs[i] == nil && other.DB != ch.DB {
-				if ch.Op == "del" {
-					allowed[ch.DB] = []*c15Cfg{nil}
-				} else {
-					c2 := *cfgs[i]
-					if c2.cols == "" && before[ch.DB] != nil {
-						c2.cols = before[ch.DB].cols
-					}
-					allowed[ch.DB] = []*c15Cfg{&c2}
-				}
+		// an acknowledged change is not lost unless another change also acted on the same database
+		for _, res := range results {
+			ch := res.ch
+			if ch.Op == "load" || !res.done || res.err != nil || touched[ch.DB] != 1 {
+				continue
+			}
+			if ch.Op == "del" {
+				allowed[ch.DB] = []*c15Cfg{nil}
+			} else {
+				allowed[ch.DB] = []*c15Cfg{withCols(res.cfg, before[ch.DB])}
 			}
 		}
+		changes := []c15Change{c.Last, progs[1][len(progs[1])-1]}
+		errs := []error{perThread[0][0].err, perThread[1][len(perThread[1])-1].err}
 		rr := vreport.Begin("C15-inner")
 		present, good := w.observe(rr, "race", allowed, c, desc)
 		_ = good
 		w.followUps(rr, "race", present, c.Last.DB, c, desc)
 		for _, v := range rrViolations(rr) {
 			viol[v[0]] = v[1]
+		}
+		// root cause of a lost acknowledged insert, so that a listed mechanism does not hide a different loss: the registry
+		// entry written by the inserter was rolled back by a loader that found no config document (the inserter was
+		// between its registry write and its config insert), and the inserter's config insert then succeeded unfenced
+		if d, lost := viol["C15/acknowledged-config-lost/race"]; lost {
+			hn := w.node(w.e.conn)
+			if reg, rerr := hn.getGatewayRegistry(w.ctx, w.bucket); rerr == nil {
+				for _, res := range results {
+					if res.ch.Op != "ins" || res.err != nil || !res.done || touched[res.ch.DB] != 1 || before[res.ch.DB] != nil {
+						continue
+					}
+					var orphan DatabaseConfig
+					_, gerr := hn.GetConfig(w.ctx, w.bucket, w.e.group, res.ch.DB, &orphan)
+					g := reg.ConfigGroups[w.e.group]
+					inRegistry := g != nil && g.Databases[res.ch.DB] != nil
+					rolledBackByLoader := false
+					for _, l := range conns[1-res.th].Log {
+						if strings.Contains(l, "Write(_sync:registry)") {
+							rolledBackByLoader = true
+						}
+					}
+					if gerr == nil && orphan.Version == res.cfg.version && !inRegistry && rolledBackByLoader {
+						delete(viol, "C15/acknowledged-config-lost/race")
+						viol["C15/race/acknowledged-insert-orphaned-by-loader-rollback"] = d
+					}
+				}
+			}
 		}
 		// both acknowledged but conflicting collections?
 		if errs[0] == nil && errs[1] == nil && changes[0].Op == "ins" && changes[1].Op == "ins" && changes[0].DB != changes[1].DB {
@@ -555,6 +645,9 @@ func (e *c15Env) raceScenario(t *testing.T, r *vreport.Report, c c15Case) vsched
 			}
 		}
 		r.Distinct("race_outcomes", fmt.Sprintf("%s|%s|%v|%v|%v", changes[0], changes[1], errs[0] == nil, errs[1] == nil, c15Keys(present)))
+		if os.Getenv("VERIF_DEBUG") != "" {
+			fmt.Printf("DEBUG %s => present %v viol %v\n  n1 log: %s\n  n2 log: %s\n", desc, c15Keys(present), viol, strings.Join(conns[0].Log, " "), strings.Join(conns[1].Log, " "))
+		}
 		if len(viol) == 0 {
 			return nil
 		}
@@ -566,11 +659,12 @@ func (e *c15Env) raceScenario(t *testing.T, r *vreport.Report, c c15Case) vsched
 func (w *c15World) performRace(n *bootstrapContext, c c15Change, marker int) (*c15Cfg, error) {
 	switch c.Op {
 	case "ins":
-		cfg := getTestDatabaseConfig(w.bucket, c.DB, w.scopes(c.Cols), "1-a")
+		version := fmt.Sprintf("1-m%d", marker) // like the product's content digest: different content, different digest
+		cfg := getTestDatabaseConfig(w.bucket, c.DB, w.scopes(c.Cols), version)
 		revs := uint32(marker)
 		cfg.RevsLimit = base.Ptr(revs)
 		_, err := n.InsertConfig(w.ctx, w.bucket, w.e.group, cfg)
-		return &c15Cfg{version: "1-a", revs: revs, cols: c.Cols}, err
+		return &c15Cfg{version: version, revs: revs, cols: c.Cols}, err
 	case "upd":
 		revs := uint32(marker)
 		var out *c15Cfg
@@ -579,10 +673,16 @@ func (w *c15World) performRace(n *bootstrapContext, c c15Change, marker int) (*c
 			_, _ = fmt.Sscanf(cur.Version, "%d-", &gen)
 			cur.Version = fmt.Sprintf("%d-r%d", gen+1, marker)
 			cur.RevsLimit = base.Ptr(revs)
-			out = &c15Cfg{version: cur.Version, revs: revs}
+			if c.Cols != "" {
+				cur.Scopes = w.scopes(c.Cols)
+			}
+			out = &c15Cfg{version: cur.Version, revs: revs, cols: c.Cols}
 			return cur, nil
 		})
 		return out, err
+	case "load":
+		_, err := n.GetDatabaseConfigs(w.ctx, w.bucket, w.e.group)
+		return nil, err
 	case "del":
 		return nil, n.DeleteConfig(w.ctx, w.bucket, w.e.group, c.DB)
 	}
@@ -595,7 +695,7 @@ func rrViolations(rr *vreport.Report) [][2]string { return rr.Violations() }
 func TestVerifC15(t *testing.T) {
 	r := vreport.Begin("C15")
 	defer r.Finish(t)
-	r.Rule("(a) for every sequence of up to L changes (insert / update / delete of db1{c1}, db2{c2}, db3{c1,c2}, incl. ones that must be rejected) the node performing the last change dies before and after each of its bootstrap metadata operations, then each recovery action {load, insert same, insert other, update, delete} runs on a healthy node, followed by two loads and follow-up create/update/delete of the same and another database; (b) two nodes each perform one change with every interleaving of their metadata operations up to a preemption bound; non-trivial = distinct case")
+	r.Rule("(a) for every sequence of up to L changes (insert / update / delete of db1{c1}, db2{c2}, db3{c1,c2}, incl. ones that must be rejected) the node performing the last change dies before and after each of its bootstrap metadata operations, then each recovery action {load, insert same, insert other, insert another database claiming the collections an interrupted update was releasing, update, delete} runs on a healthy node, followed by two loads and follow-up create/update/delete of the same and another database; (b) two nodes each perform one change - or one performs a change while the other loads the configurations (rolling back what looks abandoned), possibly followed by its own change during which it dies after its k-th operation - with every interleaving of their metadata operations up to a preemption bound; non-trivial = distinct case")
 	r.Assume("a waiting loader gives up at once (configRetryTimeout = 1ns): a slow node is the same interleaving as a dead one; nodes are bootstrapContexts sharing one in-memory cluster; registry CAS-retry jitter sleeps only cost time")
 	e := c15GetEnv(t)
 	defer e.closeF()
@@ -634,7 +734,7 @@ func TestVerifC15(t *testing.T) {
 			}
 		}
 	}
-	recoveries := []string{"load", "insert-same", "insert-other", "update", "delete"}
+	recoveries := []string{"load", "insert-same", "insert-other", "insert-claiming", "update", "delete"}
 	idx := 0
 	for _, s := range seqs {
 		// number of metadata operations of the last change, from a crash-free run (every shard that owns a case of this sequence needs it)
@@ -688,20 +788,53 @@ func TestVerifC15(t *testing.T) {
 		{Kind: "race", Prefix: []c15Change{{Op: "ins", DB: "db1", Cols: "1"}}, Last: c15Change{Op: "del", DB: "db1"}, Other: &c15Change{Op: "ins", DB: "db3", Cols: "12"}},
 		{Kind: "race", Prefix: []c15Change{{Op: "ins", DB: "db1", Cols: "1"}}, Last: c15Change{Op: "upd", DB: "db1"}, Other: &c15Change{Op: "ins", DB: "db2", Cols: "2"}},
 	}
+	// a node loading the configurations (which rolls back what looks abandoned) while another node's change is in flight
+	ins1 := c15Change{Op: "ins", DB: "db1", Cols: "1"}
+	load := c15Change{Op: "load"}
+	loadRaces := []c15Case{
+		{Kind: "race", Last: ins1, OtherProg: []c15Change{load}},
+		{Kind: "race", Prefix: []c15Change{ins1}, Last: c15Change{Op: "upd", DB: "db1"}, OtherProg: []c15Change{load}},
+		{Kind: "race", Prefix: []c15Change{ins1}, Last: c15Change{Op: "upd", DB: "db1", Cols: "3"}, OtherProg: []c15Change{load}},
+		{Kind: "race", Prefix: []c15Change{ins1}, Last: c15Change{Op: "del", DB: "db1"}, OtherProg: []c15Change{load}},
+		{Kind: "race", Prefix: []c15Change{ins1}, Last: c15Change{Op: "upd", DB: "db1", Cols: "3"}, OtherProg: []c15Change{{Op: "ins", DB: "db2", Cols: "1"}, load}},
+		{Kind: "race", Last: ins1, OtherProg: []c15Change{load, load}},
+	}
+	for _, lr := range loadRaces {
+		lr.Bound = 2
+		races = append(races, lr)
+	}
+	// ... and that second node then starts the same creation with other content and dies part-way
+	for k := 0; k < 8; k++ {
+		races = append(races, c15Case{Kind: "race", Last: ins1, OtherProg: []c15Change{load, ins1}, OtherCrash: true, OtherCrashAt: k, Bound: 1})
+	}
 	for i, rcase := range races {
 		if !r.Mine(i) || r.Expired() {
 			continue
 		}
-		rcase.Bound = bound
+		if rcase.Bound == 0 {
+			rcase.Bound = bound
+		}
 		vsched.Explore(r, c15RaceCfg(e, t, r, rcase))
 		r.Add("race_scenarios", 1)
 	}
 	r.Add("distinct_nontrivial", r.Get("schedules"))
 }
 
+func c15RaceName(c c15Case) string {
+	other := fmt.Sprint(c.OtherProg)
+	if len(c.OtherProg) == 0 {
+		other = c.Other.String()
+	}
+	crash := ""
+	if c.OtherCrash {
+		crash = fmt.Sprintf(" (node 2 dies after its operation %d)", c.OtherCrashAt)
+	}
+	return fmt.Sprintf("race %s vs %s%s after %v", c.Last, other, crash, c.Prefix)
+}
+
 func c15RaceCfg(e *c15Env, t *testing.T, r *vreport.Report, c c15Case) vsched.Config {
 	return vsched.Config{
-		Name:   fmt.Sprintf("race %s vs %s after %v", c.Last, *c.Other, c.Prefix),
+		Name:   c15RaceName(c),
 		Bound:  c.Bound,
 		New:    func() vsched.Scenario { return e.raceScenario(t, r, c) },
 		Filter: func(k vsched.Kind) bool { return k == vsched.KStore },
